@@ -34,6 +34,17 @@ def _pyrex():
 
 _ant_cls = None
 
+# heights on both sides of the surface, down to the smallest representable ones: "above" is exactly z > 0
+ABOVE_Z = [5.0, 1e-9, 5e-324, 1e-300, 1e-6, 3e-8, 0.3]
+BELOW_Z = [None, 0.0, -0.0, -5e-324, -1e-9, None, -1e-300]
+
+
+def antenna_height(aid, above):
+    if above:
+        return ABOVE_Z[aid % len(ABOVE_Z)]
+    z = BELOW_Z[aid % len(BELOW_Z)]
+    return -10.0 - aid if z is None else z
+
 
 def ant_class():
     global _ant_cls
@@ -42,7 +53,7 @@ def ant_class():
 
         class FlagAntenna(pyrex.Antenna):
             def __init__(self, aid, hit, mc, above):
-                super().__init__(position=(float(aid), 0.0, 5.0 if above else -10.0 - aid), noisy=False)
+                super().__init__(position=(float(aid), 0.0, antenna_height(aid, above)), noisy=False)
                 self.aid, self._hit, self._mc = aid, hit, mc
 
             @property
